@@ -53,3 +53,8 @@ claim('C08', 'exploration',
       'Trusted: pysam/htslib merge/sort, multiprocessing. Fetch margin larger than the longest fragment; per-run ids ignored; sites inside [0, contig length).',
       'property-based testing (Hypothesis), differential oracle serial vs parallel; completion order owned by a deterministic pool',
       'DESIGN.md section 4, C08')
+claim('C20', 'fault_enumeration',
+      'For Hypothesis-generated small libraries (nla/chic, single process and --multiprocess) ALL step boundaries of the pipeline are enumerated as failure points (molecule k of n at iteration / write_tags / write_pysam, read-group header rewrite, sort, every index call, each worker job, merge, temp-folder cleanup) x {exception, KeyboardInterrupt, os._exit in a forked child}; after every run the status file is compared with the existence, readability, sort order, index and completeness (C05 oracle) of the output.',
+      'Kills modelled at step boundaries (not inside htslib); a dying pool worker (Pool waits forever) is outside the check; worker failures are exceptions delivered through the deterministic pool. Trusted: pysam/htslib.',
+      'fault injection enumerated over all step boundaries of property-based generated libraries (Hypothesis), with an invariant oracle on status file vs output',
+      'DESIGN.md section 4, C20')
